@@ -46,7 +46,9 @@ def run():
     n_pool = 700 if ck.tier == 'quick' else 4000
     n_pairs = 12000 if ck.tier == 'quick' else 300000
     from . import docgen
-    pool = [t for t in inputs.texts(ck.rng, n_pool) + docgen.texts(ck, 300 if ck.tier == 'quick' else 5000) if len(t) < 400]
+    from . import blockparse
+    pool = [t for t in inputs.texts(ck.rng, n_pool) + docgen.texts(ck, 300 if ck.tier == 'quick' else 5000)
+            + blockparse.texts(ck, 500 if ck.tier == 'quick' else 8000) if len(t) < 400]
     recs, meta = [], []
     tried = 0
     while len(recs) < n_pairs and tried < n_pairs * 4:
